@@ -33,9 +33,9 @@ LOOP == <<"loop", 0>>
 USER == <<"user", 0>>
 OBS  == <<"obs", 0>>
 
-VARIABLES pc, upc, userRef, loopRef, pending, todo, flag, exiting, evt, woken, wdl, plan, now, joined,
+VARIABLES pc, upc, userRef, loopRef, pending, todo, flag, exiting, evt, woken, wdl, plan, now, joined, leak,
           obs, viol, actor
-vars == <<pc, upc, userRef, loopRef, pending, todo, flag, exiting, evt, woken, wdl, plan, now, joined, obs, viol, actor>>
+vars == <<pc, upc, userRef, loopRef, pending, todo, flag, exiting, evt, woken, wdl, plan, now, joined, leak, obs, viol, actor>>
 
 RECURSIVE Feed(_, _, _)
 Feed(o, v, evs) ==
@@ -54,13 +54,19 @@ Init ==
   /\ plan \in Plans
   /\ pc = "l_top" /\ upc = 1 /\ userRef = TRUE /\ loopRef = FALSE /\ pending = 0 /\ todo = 0
   /\ flag = FALSE /\ exiting = FALSE /\ evt = FALSE /\ woken = FALSE /\ wdl = -1 /\ now = 0 /\ joined = FALSE
+  /\ leak = FALSE
   /\ obs = ObsNext(ObsInit, Ev("ThreadStart", "-", "retry", 0, -1, -1, -1, -1, -1, "loop", <<>>))
   /\ viol = "ok" /\ actor = NoOne
 
-Alive == userRef \/ loopRef \/ pending > 0
+\* `leak`: a FINISHED future, kept by the user, still reaches the executor through the library's own references
+\* (seeded model bug "done_future_keeps_executor"; defect D17 was an instance: a future cancelled between retries kept
+\* the delegate future of its previous attempt, whose callbacks reference the executor).  It keeps the object alive
+\* - so the weakref callback does not fire - although nobody may legitimately still need the executor.
+Legit == userRef \/ loopRef \/ pending > 0
+Alive == Legit \/ leak
 SetEvent == evt' = TRUE /\ woken' = (woken \/ pc = "l_blocked")
 \* dropping a strong reference: if it was the last one the weakref callback sets the event, in the same thread
-AfterDrop(u, l, p) == IF ~(u \/ l \/ p > 0) /\ Bug # "no_weakref_callback" THEN SetEvent ELSE UNCHANGED <<evt, woken>>
+AfterDrop(u, l, p) == IF ~(u \/ l \/ p > 0 \/ leak) /\ Bug # "no_weakref_callback" THEN SetEvent ELSE UNCHANGED <<evt, woken>>
 
 \* ------------------------------------------------------------------ the loop
 LDeref ==      \* executor = executor_ref(); flag checks; the work of this iteration
@@ -75,11 +81,12 @@ LDeref ==      \* executor = executor_ref(); flag checks; the work of this itera
               /\ Emit(<<Ev("ThreadExit", "-", "retry", now, -1, -1, 0, -1, -1, "loop", <<>>)>>)
          ELSE /\ loopRef' = TRUE /\ pc' = "l_work" /\ UNCHANGED <<pending, todo, evt, woken>> /\ NoEmit
   /\ actor' = LOOP
-  /\ UNCHANGED <<upc, userRef, flag, exiting, wdl, plan, now, joined>>
+  /\ UNCHANGED <<upc, userRef, flag, exiting, wdl, plan, now, joined, leak>>
 
 LWork ==       \* handle everything that is queued (resolves the pending futures), then `del executor`
   /\ pc = "l_work"
   /\ pending' = pending - todo /\ todo' = 0
+  /\ leak' = (leak \/ (Bug = "done_future_keeps_executor" /\ todo > 0))
   /\ loopRef' = FALSE
   /\ pc' = "l_wait"
   \* seeded model bug: the event is cleared here, before the wait, instead of after the wake-up: a set() that
@@ -93,20 +100,20 @@ LEnter ==
   /\ IF evt THEN /\ pc' = "l_clear" /\ UNCHANGED wdl
             ELSE /\ pc' = "l_blocked" /\ wdl' = IF Timer > 0 THEN now + Timer + 1 ELSE -1
   /\ actor' = LOOP /\ NoEmit
-  /\ UNCHANGED <<upc, userRef, loopRef, pending, todo, flag, exiting, evt, woken, plan, now, joined, obs, viol>>
+  /\ UNCHANGED <<upc, userRef, loopRef, pending, todo, flag, exiting, evt, woken, plan, now, joined, leak, obs, viol>>
 
 LWake ==
   /\ pc = "l_blocked" /\ (woken \/ (wdl >= 0 /\ now >= wdl))
   /\ woken' = FALSE /\ pc' = "l_clear"
   /\ actor' = LOOP /\ NoEmit
-  /\ UNCHANGED <<upc, userRef, loopRef, pending, todo, flag, exiting, evt, wdl, plan, now, joined>>
+  /\ UNCHANGED <<upc, userRef, loopRef, pending, todo, flag, exiting, evt, wdl, plan, now, joined, leak>>
 
 LClear ==
   /\ pc = "l_clear"
   /\ evt' = IF Bug = "clear_before_wait" THEN evt ELSE FALSE
   /\ pc' = "l_top"
   /\ actor' = LOOP /\ NoEmit
-  /\ UNCHANGED <<upc, userRef, loopRef, pending, todo, flag, exiting, woken, wdl, plan, now, joined>>
+  /\ UNCHANGED <<upc, userRef, loopRef, pending, todo, flag, exiting, woken, wdl, plan, now, joined, leak>>
 
 \* ------------------------------------------------------------------ the user's operations (each in visible steps)
 Cur == IF upc <= Len(plan) THEN plan[upc] ELSE "none"
@@ -115,21 +122,21 @@ USubmit ==     \* submit(): queue work (the future references the executor), the
   /\ pending' = pending + 1 /\ todo' = todo + 1
   /\ SetEvent /\ upc' = upc + 1
   /\ actor' = USER /\ NoEmit
-  /\ UNCHANGED <<pc, userRef, loopRef, flag, exiting, wdl, plan, now, joined>>
+  /\ UNCHANGED <<pc, userRef, loopRef, flag, exiting, wdl, plan, now, joined, leak>>
 
 UDrop ==       \* the last user reference goes away
   /\ Cur = "drop" /\ userRef
   /\ userRef' = FALSE /\ upc' = upc + 1
   /\ AfterDrop(FALSE, loopRef, pending)
   /\ actor' = USER /\ NoEmit
-  /\ UNCHANGED <<pc, loopRef, pending, todo, flag, exiting, wdl, plan, now, joined>>
+  /\ UNCHANGED <<pc, loopRef, pending, todo, flag, exiting, wdl, plan, now, joined, leak>>
 
 UShutFlag ==   \* shutdown(): flip the flag (under the gate) ...
   /\ Cur \in {"shutdown_wait", "shutdown_nowait"} /\ ~flag
   /\ flag' = TRUE
   /\ Emit(<<Ev("ShutdownCall", "-", "shutdown", now, -1, -1, IF Cur = "shutdown_wait" THEN 1 ELSE 0, 0, 0, "top", <<>>)>>)
   /\ actor' = USER
-  /\ UNCHANGED <<pc, upc, userRef, loopRef, pending, todo, exiting, evt, woken, wdl, plan, now, joined>>
+  /\ UNCHANGED <<pc, upc, userRef, loopRef, pending, todo, exiting, evt, woken, wdl, plan, now, joined, leak>>
 
 UShutSet ==    \* ... then event.set() and delegate.shutdown(); without wait shutdown() returns here
   /\ Cur \in {"shutdown_wait", "shutdown_nowait"} /\ flag /\ ~joined
@@ -139,20 +146,20 @@ UShutSet ==    \* ... then event.set() and delegate.shutdown(); without wait shu
        THEN /\ upc' = upc + 1 /\ Emit(<<ES("ShutdownRet", "shutdown", now, -1, "top")>>)
        ELSE /\ UNCHANGED upc /\ NoEmit
   /\ actor' = USER
-  /\ UNCHANGED <<pc, userRef, loopRef, pending, todo, flag, exiting, wdl, plan, now>>
+  /\ UNCHANGED <<pc, userRef, loopRef, pending, todo, flag, exiting, wdl, plan, now, leak>>
 
 UJoin ==       \* wait=True: thread.join() returns once the loop has exited
   /\ Cur = "shutdown_wait" /\ joined /\ pc = "exited"
   /\ upc' = upc + 1
   /\ Emit(<<ES("ShutdownRet", "shutdown", now, -1, "top")>>)
   /\ actor' = USER
-  /\ UNCHANGED <<pc, userRef, loopRef, pending, todo, flag, exiting, evt, woken, wdl, plan, now, joined>>
+  /\ UNCHANGED <<pc, userRef, loopRef, pending, todo, flag, exiting, evt, woken, wdl, plan, now, joined, leak>>
 
 UExit ==       \* interpreter exit hook: global flag, then every event
   /\ Cur = "exit"
   /\ exiting' = TRUE /\ SetEvent /\ upc' = upc + 1
   /\ actor' = USER /\ NoEmit
-  /\ UNCHANGED <<pc, userRef, loopRef, pending, todo, flag, wdl, plan, now, joined>>
+  /\ UNCHANGED <<pc, userRef, loopRef, pending, todo, flag, wdl, plan, now, joined, leak>>
 
 UserDone == upc > Len(plan)
 AnyEnabled ==
@@ -164,13 +171,13 @@ AnyEnabled ==
 Tick ==
   /\ ~AnyEnabled /\ pc = "l_blocked" /\ wdl >= 0 /\ wdl <= Horizon
   /\ now' = wdl /\ actor' = <<"tick", 0>>
-  /\ UNCHANGED <<pc, upc, userRef, loopRef, pending, todo, flag, exiting, evt, woken, wdl, plan, joined, obs, viol>>
+  /\ UNCHANGED <<pc, upc, userRef, loopRef, pending, todo, flag, exiting, evt, woken, wdl, plan, joined, leak, obs, viol>>
 
 Next == LDeref \/ LWork \/ LEnter \/ LWake \/ LClear \/ USubmit \/ UDrop \/ UShutFlag \/ UShutSet \/ UJoin \/ UExit \/ Tick
 Spec == Init /\ [][Next]_vars
 
 \* ------------------------------------------------------------------ properties (all safety; time is virtual)
-ShouldBeGone == flag \/ exiting \/ ~Alive
+ShouldBeGone == flag \/ exiting \/ ~Legit
 \* the thread is blocked for good although it should be gone (with a periodic timer it leaves at the next wake-up)
 ThreadExits == ~(pc = "l_blocked" /\ ~woken /\ wdl = -1 /\ ShouldBeGone /\ ~AnyEnabled)
 \* shutdown(wait=True) is not stuck in join()
